@@ -361,6 +361,24 @@ class Harness:
         return 'dead:%s' % p.uniqueName
 
 
+def drain_signals(p):
+    """(member, body) of the messages the bus has written to connection p since the last call"""
+    import struct
+    from txdbus import message
+    data = p.transport.value()
+    p.transport.clear()
+    out = []
+    while data:
+        e = '<' if data[:1] == b'l' else '>'
+        blen = struct.unpack(e + 'I', data[4:8])[0]
+        hlen = 16 + struct.unpack(e + 'I', data[12:16])[0]
+        hlen += (-hlen) % 8
+        raw, data = data[:hlen + blen], data[hlen + blen:]
+        m = message.parseMessage(raw, None)
+        out.append((getattr(m, 'member', None), m.body))
+    return out
+
+
 def run_history(ops):
     """ops: list of ('req', c, name, flags) | ('rel', c, name) | ('disc', c).  Returns failure text or None."""
     h = Harness()
@@ -374,6 +392,9 @@ def run_history(ops):
             continue
         p = h.conns[op[1]]
         m.alt = None
+        owners_before = {n: q[0] for n, q in h.state().items()}
+        for k in alive:
+            drain_signals(h.conns[k])
         try:
             if op[0] == 'req':
                 got = h.bus.dbus_RequestName(op[2], op[3], dbusCaller=p.uniqueName)
@@ -393,6 +414,13 @@ def run_history(ops):
         st = h.state()
         if st != m.q and not (m.alt is not None and st == dict(m.q, **{op[2]: m.alt})):
             return 'step %d %r: name table %r, expected %r' % (step, op, st, m.q)
+        # whoever becomes owner of a name in this step - by request, or promoted because the owner released it or
+        # disconnected - is told so: a NameAcquired signal carrying the name
+        told = {k: drain_signals(h.conns[k]) for k in alive}
+        for n, q in st.items():
+            if q and q[0] in alive and owners_before.get(n) != q[0]:
+                if ('NameAcquired', [n]) not in told.get(q[0], []):
+                    return 'step %d %r: connection %r became owner of %s (was %r) and was not sent NameAcquired (it received %r)' % (step, op, q[0], n, owners_before.get(n), told.get(q[0]))
         for n, q in st.items():
             if any(str(x).startswith('dead') for x in q) or len(set(q)) != len(q) or not q:
                 return 'step %d %r: queue of %s is %r (dead / duplicate / empty)' % (step, op, n, q)
@@ -417,12 +445,37 @@ def all_ops(nclients=3, names=('a.b', 'c.d')):
     return ops
 
 
+def client_flags_case():
+    """the client-side API states the request it was asked to make: allowReplacement / replaceExisting / doNotQueue map to
+    the flag bits 1 / 2 / 4 of RequestName and nothing else influences them"""
+    from twisted.internet import defer
+    from txdbus import client
+    for allow in (False, True):
+        for replace in (False, True):
+            for dnq in (False, True):
+                for errback in (False, True):
+                    c = client.DBusClientConnection()
+                    sent = []
+                    def callRemote(path, member, **kw):
+                        sent.append((member, kw.get('body')))
+                        return defer.Deferred()
+                    c.callRemote = callRemote
+                    c.requestBusName('org.verif.N', allowReplacement=allow, replaceExisting=replace, doNotQueue=dnq, errbackUnlessAcquired=errback)
+                    want = (1 if allow else 0) | (2 if replace else 0) | (4 if dnq else 0)
+                    if len(sent) != 1 or sent[0][0] != 'RequestName' or sent[0][1] != ['org.verif.N', want]:
+                        return 'requestBusName(allowReplacement=%s, replaceExisting=%s, doNotQueue=%s, errbackUnlessAcquired=%s) sent %r, expected flags %d' % (allow, replace, dnq, errback, sent, want)
+    return None
+
+
 def bounded_histories(tier, seed):
     """exhaustive to length 2 over 3 clients x 1 name (+ representative flags), random beyond"""
     rnd = random.Random(seed)
     small = [o for o in all_ops(3, ('a.b',)) if o[0] != 'req' or o[3] in (0, 1, 2, 4, 5, 6)]
-    n = 0
+    n = 1
     failures = []
+    f = client_flags_case()
+    if f:
+        return n, [{'function': 'txdbus.client.DBusClientConnection.requestBusName', 'clause': 'history', 'input': {'case': 'client flag bits'}, 'detail': f}]
     depth = 3 if tier == 'thorough' else 2
     for L in range(1, depth + 1):
         for hist in itertools.product(small, repeat=L):
